@@ -3,7 +3,9 @@ package c10
 import (
 	"bytes"
 	"fmt"
+	"io"
 	"reflect"
+	"testing/iotest"
 
 	"github.com/tonkeeper/tongo/boc"
 	"github.com/tonkeeper/tongo/liteclient"
@@ -59,6 +61,12 @@ var handCheck = &core.Check{Name: "c10/handwritten", Quick: 1500, Thorough: 6000
 		rd := bytes.NewReader(append(append([]byte{}, want...), 1, 2, 3, 4))
 		if err := tl.Unmarshal(rd, &back); err != nil || back != id || rd.Len() != 4 {
 			return fmt.Errorf("ton.AccountID %s: UnmarshalTL gives %v, %v, %d bytes left of 4", v, back, err, rd.Len())
+		}
+		for _, chunked := range []io.Reader{iotest.OneByteReader(bytes.NewReader(want)), iotest.HalfReader(bytes.NewReader(want)), io.MultiReader(bytes.NewReader(want[:4]), bytes.NewReader(want[4:]))} {
+			var b2 ton.AccountID
+			if err := tl.Unmarshal(chunked, &b2); err != nil || b2 != id {
+				return fmt.Errorf("ton.AccountID %s: UnmarshalTL through a reader that delivers the bytes in pieces gives %v, %v", v, b2, err)
+			}
 		}
 		conv, err := liteclient.AccountID(id).MarshalTL()
 		if err != nil || !bytes.Equal(conv, want) {
